@@ -71,6 +71,10 @@ SPEC = {
             "exactly this precondition and does not model the scan's private data (retired lists, plist, qsort)",
             "retirement is modelled at the successful head CAS (hazard_pointer_free is called a few "
             "instructions later, after both slots are cleared): this only enlarges the set of accepted traces",
+            "client contract assumed by the Hp model is met by Mpmc: a node is retired once per incarnation by the "
+            "popper whose head CAS unlinked it, a retired node is unreachable from head/tail "
+            "(C13.retired_unreachable), validated slots only ever name inq/retired nodes "
+            "(C13.protected_not_reused), and a node is handed out again only after its reclaim (`take` needs free)",
             "harness node pool / free list (reuse-first) is harness code, not library code",
         ],
         "assumptions": [
